@@ -727,6 +727,10 @@ namespace chaiscript {
           }
         }
 
+        if (t_val.size() - i > 1) {
+          throw std::invalid_argument("more than one suffix on a floating point literal");
+        }
+
         if (float_) {
           return const_var(parse_num<float>(t_val.substr(0, i)));
         } else if (long_) {
@@ -747,8 +751,14 @@ namespace chaiscript {
           const char val = t_val[i - 1];
 
           if (val == 'u' || val == 'U') {
+            if (unsigned_) {
+              throw std::invalid_argument("more than one 'u' suffix on an integer literal");
+            }
             unsigned_ = true;
           } else if (val == 'l' || val == 'L') {
+            if (longlong_ || (long_ && t_val[i] != 'l' && t_val[i] != 'L')) {
+              throw std::invalid_argument("malformed 'l' suffix on an integer literal");
+            }
             if (long_) {
               longlong_ = true;
             }
@@ -759,9 +769,15 @@ namespace chaiscript {
           }
         }
 
+        // only the digits take part in the conversion, and all of them have to
+        t_val = t_val.substr(0, i);
+
         if (prefixed) {
           t_val.remove_prefix(2);
         }
+
+        const std::string digits(t_val);
+        std::size_t converted = 0;
 
 #ifdef __GNUC__
 #pragma GCC diagnostic push
@@ -778,7 +794,11 @@ namespace chaiscript {
 
         try {
           /// TODO fix this to use from_chars
-          auto u = std::stoll(std::string(t_val), nullptr, base);
+          auto u = std::stoll(digits, &converted, base);
+
+          if (converted != digits.size()) {
+            throw std::invalid_argument("digit out of range for the base of an integer literal");
+          }
 
           if (!unsigned_ && !long_ && u >= std::numeric_limits<int>::min() && u <= std::numeric_limits<int>::max()) {
             return const_var(static_cast<int>(u));
@@ -800,7 +820,11 @@ namespace chaiscript {
           // too big to be signed
           try {
             /// TODO fix this to use from_chars
-            auto u = std::stoull(std::string(t_val), nullptr, base);
+            auto u = std::stoull(digits, &converted, base);
+
+            if (converted != digits.size()) {
+              throw std::invalid_argument("digit out of range for the base of an integer literal");
+            }
 
             if (!longlong_ && u >= std::numeric_limits<unsigned long>::min() && u <= std::numeric_limits<unsigned long>::max()) {
               return const_var(static_cast<unsigned long>(u));
@@ -867,8 +891,8 @@ namespace chaiscript {
               return true;
             }
           } catch (const std::invalid_argument &) {
-            // error parsing number passed in to buildFloat/buildInt
-            return false;
+            // error parsing number passed in to buildFloat/buildInt: the text has been consumed, it must not be dropped silently
+            throw exception::eval_error("Malformed number literal", File_Position(start.line, start.col), *m_filename);
           }
         } else {
           return false;
